@@ -219,6 +219,11 @@ fn logic_operand_not_boolean(e: &E, p: &[Q]) -> bool {
             _ => vec![],
         };
         for o in ops {
+            // a constant operand has a truth value of its own (non-zero is true): only operands that depend on
+            // a variable fall under the recorded finding
+            if !o.mentions_variable() {
+                continue;
+            }
             if let Ok(v) = o.eval(p) {
                 if !(v.is_zero() || v == one()) {
                     found = true;
